@@ -35,8 +35,8 @@ NT_CAP = 120000  # per-worker cap on stored non-trivial case hashes
 HS_SAMPLE = {"quick": 700, "thorough": 8000}
 
 RULES = {
-    "C06": "cases = valid rate calls inside seeded closed-loop league histories (ratings fed back, restarts, per-call tau/limit_sigma), each checked against the per-game sigma bounds and its players' trajectory bounds; non-trivial = the bound was tight to 1e-6, the limit_sigma clamp fired, the kappa floor was hit, or a Thurstone-Mosteller pair 5-8.3 combined sd apart ended in an upset/tie; distinct by hash of (model, prior values, outcome, options)",
-    "C13": "cases = malformed calls from the fixed grammar (every kind at every position of a base game reached in a league history; rate and the three predictors; sampled positions only for games with >9 players or >5 teams) plus well-formed twins; non-trivial = the malformed call carried at least one live rating object whose corruption would be visible; distinct by hash of (model, fault kind, position, values of the base game)",
+    "C06": "cases = valid rate calls inside seeded closed-loop league histories (ratings fed back, restarts, per-call tau/limit_sigma), each checked against the per-game sigma bounds and its players' trajectory bounds (5 % of runs: rate calls of the threaded shared-model service, bounds checked per completed call); non-trivial = the bound was tight to 1e-6, the limit_sigma clamp fired, the kappa floor was hit, or a Thurstone-Mosteller pair 5-8.3 combined sd apart ended in an upset/tie; distinct by hash of (model, prior values, outcome, options)",
+    "C13": "cases = malformed calls from the fixed grammar (every kind at every position of a base game reached in a league history; rate and the three predictors; sampled positions only for games with >9 players or >5 teams) plus well-formed twins, plus malformed and well-formed requests in flight together in the threaded shared-model service (half of the runs); non-trivial = the malformed call carried at least one live rating object whose corruption would be visible; distinct by hash of (model, fault kind, position, values of the base game)",
     "C14": "cases = oracle comparisons: a valid call vs. the same call executed in isolation on a fresh model with rebuilt ratings (other ids/names), model snapshots before/after every call or threaded phase, threaded phases vs. two sequential orders, module state per run; non-trivial = the call followed a call with per-call options / a rejected call / a crashed call / rebuilt objects, or ran inside a threaded phase with >= 2 threads; distinct by hash of (model, argument values, outcome, options, history kind)",
     "C15": "cases = rate calls on a long-lived shared model (sequential histories and threaded phases), each compared bit-for-bit with a fresh model CONSTRUCTED with the per-call options; non-trivial = an option was given, differed from the model's own setting and was live (changed at least one number of that game); distinct by hash of (model, argument values, outcome, options)",
     "C20": "cases = comparisons between twin leagues (objects kept vs. rebuilt from the (mu, sigma) store at arbitrary points, wholly or partly, also after a call killed mid-way) plus construction/copy invariants at every NEW/restore/deepcopy; non-trivial = a game involving >= 1 player restored since its last game, after >= 1 earlier game of a participant; distinct by hash of (model, argument values, outcome, options, restore paths)",
